@@ -224,7 +224,7 @@ pub struct RedCase {
     pub drop: u8,
 }
 
-fn red_hist(c: &RedCase) -> Hist {
+pub fn red_hist(c: &RedCase) -> Hist {
     let k = c.k as usize;
     let id: P = (0..k as u8).collect();
     let mut ops = vec![HOp::Add(leaf_term(k, &id))];
@@ -329,7 +329,7 @@ fn run_merge(c: &MergeCase, obs: &mut Obs) -> Result<(), String> {
     Ok(())
 }
 
-fn exhaustive_sets(max_k: usize) -> Vec<GroupCase> {
+pub fn exhaustive_sets(max_k: usize) -> Vec<GroupCase> {
     let mut out = Vec::new();
     for k in 2..=max_k {
         let ps = all_perms_k(k);
